@@ -108,10 +108,21 @@ def update_cache(ccode, cache_file_name):
                     f"Set $XONSH_CACHE_SCRIPTS=0, $XONSH_CACHE_EVERYTHING=0 to disable cache."
                 )
             return
-        with open(cache_file_name, "wb") as cfile:
-            cfile.write(XONSH_VERSION.encode() + b"\n")
-            cfile.write(bytes(PYTHON_VERSION_INFO_BYTES) + b"\n")
-            marshal.dump(ccode, cfile)
+        try:
+            with open(cache_file_name, "wb") as cfile:
+                cfile.write(XONSH_VERSION.encode() + b"\n")
+                cfile.write(bytes(PYTHON_VERSION_INFO_BYTES) + b"\n")
+                marshal.dump(ccode, cfile)
+        except OSError as e:
+            # The cache is an optimisation: a full disk or an I/O error while
+            # writing it must not keep the code from running.  Drop the
+            # partial entry (readers also ignore incomplete entries).
+            try:
+                os.remove(cache_file_name)
+            except OSError:
+                pass
+            if XSH.env.get("XONSH_DEBUG", "False"):
+                print_warning(f"update_cache: Cannot write {cache_file_name}: {e}")
 
 
 def _check_cache_versions(cfile):
